@@ -273,9 +273,9 @@ pub fn spec() -> PropertySpec {
         rule: "copy_chunked_async driven by a scripted source and a scripted sink. (1) sweep: every piece length 1..=65528 once, compared with independently built expected bytes (exhaustive for the size-line encoding). (2) random streams 0..1 MiB under tape-chosen/adversarial piece sequences (all-1, max-then-1, powers of 16 +-1), short writes and spurious Pending; strict independent decoder must recover the source, one chunk per delivered piece, exactly one terminator. (3) source error after piece k, k enumerated over 0..=#pieces: complete chunks, no terminator. (4) sink error at every chunk boundary +-1 and at drawn offsets: accepted bytes are a prefix of the fault-free output, no write after the error. distinct = hash(len, piece sequence / fault offset); non-trivial = at least 2 pieces or a fault strictly inside the output.",
         scenarios: vec![
             Scenario { name: "c07.sweep", property: "C07", func: sweep, runs_quick: 65_528, runs_thorough: 65_528, doc: "every piece length" },
-            Scenario { name: "c07.random", property: "C07", func: random_streams, runs_quick: 60_000, runs_thorough: 3_000_000, doc: "random streams and schedules" },
-            Scenario { name: "c07.reader_error", property: "C07", func: reader_error, runs_quick: 40_000, runs_thorough: 1_000_000, doc: "source error at every chunk boundary" },
-            Scenario { name: "c07.writer_error", property: "C07", func: writer_error, runs_quick: 40_000, runs_thorough: 1_000_000, doc: "sink error at boundaries and offsets" },
+            Scenario { name: "c07.random", property: "C07", func: random_streams, runs_quick: 200_000, runs_thorough: 5_000_000, doc: "random streams and schedules" },
+            Scenario { name: "c07.reader_error", property: "C07", func: reader_error, runs_quick: 150_000, runs_thorough: 3_000_000, doc: "source error at every chunk boundary" },
+            Scenario { name: "c07.writer_error", property: "C07", func: writer_error, runs_quick: 150_000, runs_thorough: 3_000_000, doc: "sink error at boundaries and offsets" },
         ],
         required_probes: vec!["fault.reader_error", "fault.writer_error"],
         components: components_stream(),
